@@ -26,6 +26,8 @@ from aionostr.event import Event  # noqa: E402
 from nostr_relay.storage.db import DBStorage  # noqa: E402
 from nostr_relay.storage import get_metadata  # noqa: E402
 from nostr_relay.util import event_as_json  # noqa: E402
+from nostr_relay.web import ViewEventResource  # noqa: E402
+import types  # noqa: E402
 
 TEXTS = ["", "plain", "quote\" and \\ backslash", "single ' quote", "new\nline\ttab\rcr", "ctrl\x01\x1f\x7f", "nul\x00inside", "é中文",
          "non-BMP \U0001F600 \U00010000", "퟿", "</script>  ", "%s %d {} {0} $1", "x' OR 1=1 --", "[\"EVENT\"]", "\\u0041 \\n"]
@@ -82,6 +84,17 @@ async def run():
             bobj = back.to_json_object()
             if not same(bobj, obj):
                 fails.append(("stored-event-differs", {"accepted": obj, "served": bobj}))
+            # HTTP /e/<id>: the real resource handler over the real storage; falcon serialises resp.media with the stdlib encoder
+            cases += 1
+            resp = types.SimpleNamespace(media=None)
+            try:
+                await ViewEventResource(st).on_get(None, resp, ev.id)
+                served = json.loads(json.dumps(resp.media, ensure_ascii=False))
+            except Exception as ex:  # noqa
+                fails.append(("http-event-view-raised", {"event": obj, "error": repr(ex)[:100]}))
+            else:
+                if not same(served, json.loads(json.dumps(obj))):
+                    fails.append(("http-event-view-differs-from-accepted-event", {"accepted": obj, "served": served}))
             # the live path serves the object add_event returns (what notify_all_connected is given), after everything add_event did to it
             for which, e in (("stored", back), ("live", stored_ev)):
                 for sid in SUBIDS:
